@@ -15,5 +15,5 @@ run() {
   if [ -z "$bad" ]; then echo "$id ALL-QUIET"; else echo "$id ALARMS:$bad"; fi
 }
 export -f run
-ls ${PATCHES:-/verif/selftest/harmless/*.patch} | xargs -P 3 -I{} bash -c 'run {}' >> $out
+ls ${PATCHES:-/verif/selftest/harmless/*.patch} | xargs -P 4 -I{} bash -c 'run {}' >> $out
 echo DONE >> $out
